@@ -318,6 +318,7 @@ fn run_inner(p: &Program) -> Result<Outcome, Outcome> {
         ("event:received", "event:received"),
         ("chan:items-flowed", "item:received"),
         ("chan:item-order-checked>=2", "item:order-checked>=2"),
+        ("chan:receiver-closed-polled-while-sending", "chan:receiver-closed-polled"),
         ("bus-event:received", "bus-event:received"),
         ("discoverer-event:received", "discoverer-event:received"),
         ("cross-client-proxy", "cross-client-proxy"),
